@@ -6,6 +6,7 @@ import GenlmModel.Model.Mask
 import GenlmModel.Model.WfsaOps
 import GenlmModel.Model.WfsaOps2
 import GenlmModel.Model.FstOps
+import GenlmModel.Model.PrefixT
 import GenlmModel.Model.Cert
 import GenlmModel.Model.Linear
 import GenlmModel.Generated.Semiring
@@ -113,6 +114,11 @@ def pairStateTag : PairState → Sx
 def opFstOp (j : Json) : E Json := do
   let name ← getStr (← getField j "name")
   match name with
+  | "prefix_transducer" => do
+      let V ← sxList (← getField j "V")
+      let T : FST Nat Sx K := prefixT V
+      pure (fstToJson ⟨T.start.map fun s => (Sx.i s.1, s.2), T.stop.map fun s => (Sx.i s.1, s.2),
+        T.arcs.map fun e => ⟨Sx.i e.src, e.inp, e.out, Sx.i e.dst, e.w⟩⟩)
   | "from_pairs" => do
       let ps ← (← getArr (← getField j "pairs")).mapM fun e => do
         match ← getArr e with
